@@ -6,7 +6,7 @@ cd "$(dirname "$0")/.." || exit 2
 REPO="${VERIF_REPO:-/repo}"
 if [ -n "$(git -C "$REPO" status --porcelain)" ]; then echo "$REPO not clean"; exit 2; fi
 mkdir -p .scratch
-for D in benign/C*-[nm]; do
+for D in benign/C*-[nmq]; do
   NAME=$(basename "$D"); P=$(echo "$NAME" | cut -d- -f1)
   git -C "$REPO" apply "$PWD/$D/patch.diff" || { echo "$NAME patch-does-not-apply"; continue; }
   VERIF_SCRATCH="$PWD/.scratch/bsweep" ./check "$P" --tier quick > ".scratch/bsweep-$NAME.log" 2>&1
